@@ -126,3 +126,6 @@ Fixpoint rep (e : expr) (off : nat) (t : ntree) : Prop :=
       end
   | ESeq _ _ _ | ESide _ _ | ENested _ _ | EReapply _ => False
   end.
+
+(* the fragment the end-to-end theorem of C01 is stated for: all four levels *)
+Definition frag_e2e (e : expr) : bool := efrag 3 e.
